@@ -343,6 +343,77 @@ func TestC04(t *testing.T) {
 	r.Set("transport_failure_cases", len(tfjobs))
 	r.Set("failed_parties_checked", brokenWrites)
 
+	// Part A4: what a party holds after a completed handshake is its own. A
+	// later handshake of other parties in the same process (a server that
+	// serves the next client, a client that dials another server) must not
+	// change it: histories of two handshakes, run one after the other, over
+	// every ordered pair of payload sizes on both sides of the 64 KiB record
+	// limit; the first handshake's views are compared with deep copies taken
+	// before the second one ran.
+	hsizes := []int{0, 7, 600, 65535, 65536, 70000}
+	if r.Thorough() {
+		hsizes = append(hsizes, 2<<20)
+	}
+	var histories int64
+	for _, v := range []byte{0, 1, 2} {
+		for _, a := range hsizes {
+			for _, b := range hsizes {
+				if v == 0 && (a > 498 || b > 498) {
+					continue
+				}
+				evals++
+				histories++
+				c1 := hsCase{cMin: v, cMax: v, sMin: v, sMax: v, payload: a}
+				label := fmt.Sprintf("history at version %d: handshake with a %d byte auth payload, then a handshake of other parties with %d bytes", v, a, b)
+				ctx := map[string]any{"version": v, "first_payload": a, "second_payload": b}
+				ini, rsp := c1.parties()
+				ri, rr, _, err := runHandshake(ini, rsp, hsOpts{})
+				if err != nil || !ri.completed || !rr.completed {
+					r.Violation("untampered-compatible-fails", fmt.Sprintf("%s: first handshake failed: %v / %v / %v", label, err, ri.err, rr.err), ctx)
+					continue
+				}
+				vi, vr := viewOf(ri), viewOf(rr)
+				vi.Auth = append([]byte(nil), vi.Auth...)
+				vi.RemoteKey, vr.RemoteKey = append([]byte(nil), vi.RemoteKey...), append([]byte(nil), vr.RemoteKey...)
+				second := authPayload(b)
+				for k := range second {
+					second[k] ^= 0xa5
+				}
+				ini2, rsp2 := c1.parties()
+				ini2.local, rsp2.local, rsp2.auth = 3, 0, second
+				ini2.ephTag, rsp2.ephTag = "i2", "r2"
+				ri2, rr2, _, err := runHandshake(ini2, rsp2, hsOpts{})
+				if err != nil || !ri2.completed || !rr2.completed {
+					r.Violation("untampered-compatible-fails", fmt.Sprintf("%s: second handshake failed: %v / %v / %v", label, err, ri2.err, rr2.err), ctx)
+					continue
+				}
+				if got := ri2.connData.AuthData(); !bytes.Equal(got, second) {
+					r.Violation("views-differ/history/second-auth-payload",
+						fmt.Sprintf("%s: the second initiator holds %d bytes (%x…), the responder sent %d bytes", label, len(got), trunc16(got), len(second)), ctx)
+					continue
+				}
+				wi, wr := viewOf(ri), viewOf(rr)
+				var changed []string
+				if !bytes.Equal(wi.Auth, vi.Auth) || !bytes.Equal(wi.Auth, authPayload(a)) {
+					changed = append(changed, fmt.Sprintf("the first initiator's auth payload (now %d bytes, %x…)", len(wi.Auth), trunc16(wi.Auth)))
+				}
+				if wi.SendKey != vi.SendKey || wi.RecvKey != vi.RecvKey || wr.SendKey != vr.SendKey || wr.RecvKey != vr.RecvKey {
+					changed = append(changed, "traffic keys of the first handshake")
+				}
+				if !bytes.Equal(wi.RemoteKey, vi.RemoteKey) || !bytes.Equal(wr.RemoteKey, vr.RemoteKey) || wi.Version != vi.Version || wr.Version != vr.Version {
+					changed = append(changed, "peer key or version of the first handshake")
+				}
+				if len(changed) > 0 {
+					r.Violation("views-differ/history/later-handshake-changes-earlier-view",
+						fmt.Sprintf("%s: after the second handshake the parties of the first one no longer hold what they held: %v", label, changed), ctx)
+					continue
+				}
+				note("history/unchanged")
+			}
+		}
+	}
+	r.Set("history_cases", histories)
+
 	// Part B1: every combination of version-byte substitutions (0..3 per
 	// act) on every configuration.
 	type vjob struct {
